@@ -20,6 +20,7 @@
 EXTENDS AppSeriesProps
 
 CONSTANTS CMax,      \* largest concurrency value
+          XUse,      \* exception classes the environment raises (subset of XC)
           UecVals,   \* codes the embedder may pass to update_exit_code
           MaxStop, MaxConc, MaxRaise, MaxUec, MaxRun2    \* budgets of environment disturbances
 
@@ -207,8 +208,8 @@ EnvNext ==
   \/ StopAccepted \/ StopIgnored \/ RunRejected
   \/ \E c \in 0..CMax : SetConc(c)
   \/ \E c \in UecVals : Uec(c)
-  \/ \E p \in Pipes, x \in XC : SrcRaise(p, x)
-  \/ \E p \in Pipes, i \in Items, x \in XC : TaskRaise(p, i, x)
+  \/ \E p \in Pipes, x \in XUse : SrcRaise(p, x)
+  \/ \E p \in Pipes, i \in Items, x \in XUse : TaskRaise(p, i, x)
 
 Next == SysNext \/ EnvNext
 
@@ -218,12 +219,16 @@ Spec == Init /\ [][Next]_vars /\ WF_vars(SysNext)
 -----------------------------------------------------------------------------
 Terminal    == apc = "done"
 LegitPaused == apc = "inpipe" /\ cur # 0 /\ pst[cur] = "running" /\ effc[cur] = 0
-\* progress possible without the environment's disturbances (a SrcNone that only waits is not progress)
+\* progress possible without the environment's disturbances (a SrcNone that only waits is not progress);
+\* written as the guards of the SysNext actions
 Progress ==
-  \/ ENABLED Run \/ ENABLED PickSkip \/ ENABLED PickBegin \/ ENABLED Finish
-  \/ \E p \in Pipes : ENABLED Take(p) \/ (ENABLED SrcNone(p) /\ Unfin(p) = {}) \/ ENABLED Begin(p)
-                      \/ ENABLED PReturnOK(p) \/ ENABLED PFail(p)
-  \/ \E p \in Pipes, i \in Items : ENABLED EndOK(p, i) \/ ENABLED BeginNext(p, i)
+  \/ (apc = "idle" /\ ast = "ready") \/ apc = "pick"
+  \/ \E p \in Pipes :
+        \/ SrcCall(p) /\ (NTaken(p) < kk[p] \/ Unfin(p) = {})
+        \/ apc = "inpipe" /\ cur = p /\ pst[p] = "running" /\ Ahead(p) # {} /\ Cardinality(InFlight(st, p)) < effc[p]
+        \/ apc = "inpipe" /\ cur = p /\ pst[p] \in {"running", "stopping"} /\ Live(p) # {}
+        \/ apc = "inpipe" /\ cur = p /\ pst[p] = "stopping" /\ Live(p) = {}
+        \/ apc = "inpipe" /\ cur = p /\ pst[p] = "crashed"
 NoHang == Progress \/ Terminal \/ LegitPaused
 
 Finishes    == <>(Terminal \/ LegitPaused)
